@@ -159,6 +159,10 @@ Relogged(l, x) == IF NeedsRebuild(l, x) THEN Whole(l) ELSE l
 (* reads (reader.go, uncommitted reader): byte-sequential through the log   *)
 (* files of the segment list; the index only gives the start position       *)
 
+\* the records of a log file from ordinal p on (nothing if p is not the start of a
+\* record: recorded index entries of a damaged directory may point anywhere)
+From(l, p) == IF p < 1 \/ p > Len(l) THEN <<>> ELSE SubSeq(l, p, Len(l))
+
 \* everything NewReader(0, uncommitted) delivers
 ScanOf(f, m) ==
   LET segs == m.segs
@@ -167,7 +171,7 @@ ScanOf(f, m) ==
   ELSE LET l1 == Get(f.lf, Key(segs[k].base, ""))
            x1 == Get(f.xf, Key(segs[k].base, ""))
            p  == IF segs[k].base <= 0 /\ x1 # <<>> THEN x1[1].pos ELSE 1
-       IN SubSeq(l1, p, Len(l1))
+       IN From(l1, p)
           \o Flat([i \in 1..(Len(segs) - k) |-> Get(f.lf, Key(segs[k + i].base, ""))])
 
 \* first record NewReader(o, uncommitted) delivers: [off, val] (-1 = none)
@@ -180,7 +184,7 @@ ReadFirst(f, m, o) ==
            x1 == Get(f.xf, Key(segs[k].base, ""))
            e  == IF segs[k].base <= o THEN FindEntry(x1, o) ELSE -1
            p  == IF e = -1 THEN 1 ELSE IF e = 0 THEN 0 ELSE x1[e].pos
-           rest == (IF p = 0 THEN <<>> ELSE SubSeq(l1, p, Len(l1)))
+           rest == From(l1, p)
                    \o Flat([i \in 1..(Len(segs) - k) |-> Get(f.lf, Key(segs[k + i].base, ""))])
        IN IF p = 0 \/ rest = <<>> THEN NoRec ELSE [off |-> rest[1].off, val |-> rest[1].val]
 
@@ -492,6 +496,11 @@ TornFS(f, m, op, k) ==
   IN [hit |-> R.hit /\ k >= 0 /\ k < Len(w.recs),
       fs |-> [R.S.fs EXCEPT !.lf = Put(@, w.k, SubSeq(l, 1, Len(l) - Len(w.recs) + k) \o <<Torn>>)]]
 
+\* the state after the first k effects of an operation (0 <= k <= length of its plan):
+\* a crash between ANY two effects, whether or not the code names a crash point there
+RECURSIVE RunPrefix(_, _)
+RunPrefix(S, k) == IF k = 0 \/ S.todo = <<>> THEN S ELSE RunPrefix(Apply(S), k - 1)
+
 \* crash points an operation passes, in order (with repetitions)
 PointsOf(f, m, op) == LET cps == SelectSeq(Plan(f, m, op), LAMBDA h : h.i = "cp") IN
                       [i \in 1..Len(cps) |-> cps[i].p]
@@ -518,6 +527,14 @@ DoCrash(op, p, n) ==
   /\ LET R == RunTo(Begin(fs, mem, op), p, n) IN
      /\ R.hit
      /\ fs' = R.S.fs
+  /\ mem' = Down
+  /\ obs' = [a |-> "Crash", ret |-> <<>>, err |-> ""]
+  /\ UNCHANGED cfg
+
+\* the process is killed after the first k effects of op (any boundary)
+DoCrashAfter(op, k) ==
+  /\ mem.up /\ k \in 0..Len(Plan(fs, mem, op))
+  /\ fs' = RunPrefix(Begin(fs, mem, op), k).fs
   /\ mem' = Down
   /\ obs' = [a |-> "Crash", ret |-> <<>>, err |-> ""]
   /\ UNCHANGED cfg
